@@ -180,6 +180,132 @@ def extract_script(fmt_arg=None, default_format="npy", env=False, rounds=1):
     return log
 
 
+# ---------------------------------------------------------------- the callers of update_image (worker processes)
+
+class _OneItemQueue:
+    def __init__(self, item):
+        self.item, self.k = item, 0
+
+    def get(self, block=True, timeout=None):
+        from queue import Empty
+        self.k += 1
+        if self.k == 1:
+            return self.item
+        raise Empty()
+
+
+class _FlagUp:
+    def is_set(self):
+        return True
+
+    def wait(self, timeout=None):
+        return True
+
+
+def _caller_item(caller, pos, data, hook=None):
+    """One work item for the REAL worker function of `caller` that makes it update tile `pos` once with `data`
+    (a 256x256 float32 array)."""
+    import types
+    from toasty.image import Image as _Image
+
+    class Img(_Image):
+        def update_into_maskable_buffer(self, buffer, *idx):
+            if hook:
+                hook()
+            return _Image.update_into_maskable_buffer(self, buffer, *idx)
+
+    sub = types.SimpleNamespace(generate_populated_positions=lambda: [(pos, 256, 256, 0, 0, 0, 0)], count_populated_positions=lambda: 1)
+    if caller == "multi_tan":
+        im = Img.from_array(data)
+        im.__class__ = Img
+        im.get_parity_sign = lambda: -1
+        return (im, types.SimpleNamespace(sub_tiling=sub)), {}
+    if caller == "multi_wcs":
+        image = types.SimpleNamespace(asarray=lambda: data, wcs="WCS")
+        chunk = types.SimpleNamespace(j0=0, j1=256, sub_tiling=sub)
+        desc = types.SimpleNamespace(chunks=[chunk], imin=0, imax=256)
+
+        class CW:
+            def __getitem__(self, k):
+                return "CHUNK-WCS"
+        return (image, desc, CW()), {"Image": Img}
+    raise HarnessError("unknown caller %r" % (caller,))
+
+
+def _run_caller_worker(caller, pio, item, extra_mod_attrs):
+    """The REAL worker function of `caller` on a one-item queue with the shutdown flag up."""
+    import toasty.multi_tan as tmt
+    import toasty.multi_wcs as tmw
+    mod = {"multi_tan": tmt, "multi_wcs": tmw}[caller]
+    saved = {k: mod.__dict__.get(k) for k in extra_mod_attrs}
+    for k, v in extra_mod_attrs.items():
+        setattr(mod, k, v)
+    try:
+        if caller == "multi_tan":
+            mod._mp_tile_worker(_OneItemQueue(item), _FlagUp(), pio, {})
+        else:
+            mod._mp_tile_worker(_OneItemQueue(item), _FlagUp(), pio, lambda inp, output_projection=None, shape_out=None, return_footprint=False, **k: inp[0], {})
+    finally:
+        for k, v in saved.items():
+            if v is None:
+                try:
+                    delattr(mod, k)
+                except AttributeError:
+                    pass
+            else:
+                setattr(mod, k, v)
+
+
+def caller_epilogue(caller):
+    """What does the REAL worker function of `caller` do to lock files OUTSIDE update_image (e.g. cleaning up when it
+    runs out of work)?  It runs on one item against a recording PyramidIO; os.unlink / os.remove are recorded, not
+    executed.  -> list of 'unlink-own-lock' steps performed after the update (lock of a tile the worker updated)."""
+    import contextlib
+    pos = Pos(2, 1, 3)
+    log = []
+
+    class RecPio:
+        def get_default_vertical_parity_sign(self):
+            return -1
+
+        def tile_path(self, p, format=None, makedirs=True):
+            return "/t/%d_%d_%d" % (p.n, p.x, p.y)
+
+        @contextlib.contextmanager
+        def update_image(self, p, masked_mode=None, default="none", format=None):
+            log.append(("update-begin", p))
+            yield ImageMode.F32.make_maskable_buffer(256, 256)
+            log.append(("update-end", p))
+
+        def clean_lockfiles(self, level):
+            log.append(("clean_lockfiles", level))
+
+    item, attrs = _caller_item(caller, pos, np.zeros((256, 256), dtype=np.float32))
+    saved = (os.unlink, os.remove)
+    os.unlink = lambda p, *a, **k: log.append(("unlink", str(p)))
+    os.remove = lambda p, *a, **k: log.append(("unlink", str(p)))
+    try:
+        _run_caller_worker(caller, RecPio(), item, attrs)
+    finally:
+        os.unlink, os.remove = saved
+    if ("update-begin", pos) not in log:
+        raise HarnessError("%s worker did not update the tile of its item: %r" % (caller, log))
+    out = []
+    inside = False
+    for ev in log:
+        if ev[0] == "update-begin":
+            inside = True
+        elif ev[0] == "update-end":
+            inside = False
+        elif ev[0] == "unlink" and ev[1].endswith(".lock"):
+            if ev[1] != "/t/%d_%d_%d.lock" % (pos.n, pos.x, pos.y) or inside:
+                raise HarnessError("%s worker unlinks lock file %r at a point the model cannot place" % (caller, ev[1]))
+            out.append("unlink-own-lock")
+        elif ev[0] == "clean_lockfiles":
+            raise HarnessError("%s worker calls clean_lockfiles itself (whole-level clean-up while others may hold locks): not modelled" % caller)
+    return out
+
+
 def updater_ts(scripts, split_write=True, rounds=1):
     """scripts[u] = list of ALTERNATIVE step lists of updater u (one per answer of the environment), each a list of
     (op, resource[, expected]).  One tile file; locks identified by path.  Which alternative an updater follows is a
@@ -266,7 +392,44 @@ def updater_ts(scripts, split_write=True, rounds=1):
     return ts
 
 
-def replay(trace, n_updaters, fmt_args, old_clock=(), rounds=1):
+_CALLER_SAVED = {}
+
+
+def _caller_mod(caller):
+    import toasty.multi_tan as tmt
+    import toasty.multi_wcs as tmw
+    return {"multi_tan": tmt, "multi_wcs": tmw}[caller]
+
+
+def _install_caller_attrs(caller, attrs):
+    mod = _caller_mod(caller)
+    _CALLER_SAVED[caller] = {k: mod.__dict__.get(k) for k in attrs}
+    for k, v in attrs.items():
+        setattr(mod, k, v)
+
+
+def _restore_caller_attrs(caller):
+    mod = _caller_mod(caller)
+    for k, v in _CALLER_SAVED.pop(caller, {}).items():
+        if v is None:
+            try:
+                delattr(mod, k)
+            except AttributeError:
+                pass
+        else:
+            setattr(mod, k, v)
+
+
+def _run_caller_worker_threadsafe(caller, pio, item, attrs):
+    """As _run_caller_worker, with the module attributes already installed by the replay (threads share the module)."""
+    mod = _caller_mod(caller)
+    if caller == "multi_tan":
+        mod._mp_tile_worker(_OneItemQueue(item), _FlagUp(), pio, {})
+    else:
+        mod._mp_tile_worker(_OneItemQueue(item), _FlagUp(), pio, lambda inp, output_projection=None, shape_out=None, return_footprint=False, **k: inp[0], {})
+
+
+def replay(trace, n_updaters, fmt_args, old_clock=(), rounds=1, caller=None):
     """Real update_image on real npy files in a scratch directory, threads driven by the solver's schedule.  The soft
     lock is a real marker file; for the updaters named in `old_clock` the clock toasty.pyramid sees is far ahead (every
     existing file looks old to them) — the environment answers the solver chose."""
@@ -366,11 +529,27 @@ def replay(trace, n_updaters, fmt_args, old_clock=(), rounds=1):
         tp.time = ReplayClock()
     pos = Pos(1, 1, 0)
     errors = []
+    caller_lock = threading.Lock()
     try:
+        if caller:
+            # module attributes of the caller are patched once for all threads (not per thread)
+            _install_caller_attrs(caller, dict(_caller_item(caller, pos, np.zeros((1, 1), dtype=np.float32), hook=lambda: S.op("modify"))[1], os=ReplayOS()))
+
         def updater(u):
             S.local.name = "u%d" % u
             try:
                 pio = Pio(d, default_format="npy")
+                if caller:
+                    # the REAL worker function of the caller, on one item whose data are this updater's contribution
+                    contrib = np.full((256, 256), np.nan, dtype=np.float32)
+                    contrib[u, :] = u + 1.0
+                    item, attrs = _caller_item(caller, pos, contrib, hook=lambda: S.op("modify"))
+                    attrs = dict(attrs)
+                    attrs["os"] = ReplayOS()
+                    with caller_lock:
+                        pass
+                    _run_caller_worker_threadsafe(caller, pio, item, attrs)
+                    return
                 for r in range(rounds):
                     with pio.update_image(pos, masked_mode=ImageMode.F32, default="masked", format=fmt_args[u]) as img:
                         S.op("modify")
@@ -401,16 +580,24 @@ def replay(trace, n_updaters, fmt_args, old_clock=(), rounds=1):
         tp.os = saved_os
         if had_time:
             tp.time = saved_time
+        if caller:
+            _restore_caller_attrs(caller)
         shutil.rmtree(d, ignore_errors=True)
     return dict(drive=out, present=present, torn_reads=monitor["torn_reads"], errors=errors, locks_left=dict(held))
 
 
-def check_updaters(run, n, rounds=1):
+def check_updaters(run, n, rounds=1, caller=None, epilogue=()):
     name = "update[N=%d]" % n if rounds == 1 else "update[N=%d,R=%d]" % (n, rounds)
+    if caller:
+        name = "%s-workers[N=%d]" % (caller, n)
     scripts = []
     for u in range(n):
-        alts = extract_scripts(fmt_arg=None if u % 2 == 0 else "npy", rounds=rounds)
+        alts = extract_scripts(fmt_arg=None if (u % 2 == 0 or caller) else "npy", rounds=rounds)
         scripts.append([[tuple(op) for op in log] for log in alts])
+    if epilogue:
+        # what the worker process does to its tiles' lock files after its updates (extracted from the real worker)
+        lockp = [op[1] for op in scripts[0][0] if op[0] == "acquire"][0]
+        scripts = [[sc + [("unlink", lockp)] * len(epilogue) for sc in alts] for alts in scripts]
     ts = updater_ts(scripts, rounds=rounds)
     U = bmc.Unrolled(ts, ts.max_steps)
     run.extra.setdefault("models", {})[name] = dict(alternatives_by_environment=[[op[0] + (":%s" % op[2] if op[0] == "probe" else "") for op in sc] for sc in scripts[0]],
@@ -427,6 +614,8 @@ def check_updaters(run, n, rounds=1):
 
     def old_clock_of(m):
         out = []
+        if caller:
+            return ()       # the unlink steps of these scripts are the workers' own clean-up, not stale-lock recovery
         for u in range(n):
             a = m.eval(ts.alt[u], model_completion=True).as_long()
             if any(op[0] == "unlink" for op in scripts[u][a]):
@@ -440,7 +629,7 @@ def check_updaters(run, n, rounds=1):
         elif r == "sat":
             trace = U.trace(m)
             oc = old_clock_of(m)
-            obs = replay(trace, n, [None if u % 2 == 0 else "npy" for u in range(n)], oc, rounds)
+            obs = replay(trace, n, [None if (u % 2 == 0 or caller) else "npy" for u in range(n)], oc, rounds, caller)
             lost = not all(obs["present"])
             torn = obs["torn_reads"] > 0
             stuck = obs["drive"][0] == "stuck"
@@ -449,10 +638,10 @@ def check_updaters(run, n, rounds=1):
             # on the real code as that torn read
             if lost or torn or (qn == "terminates" and stuck):
                 text = ("# interleaving found by the solver, replayed on the real PyramidIO.update_image with real files\n"
-                        "import sys\nsys.path.insert(0, %r)\nimport props.C10 as P\nobs = P.replay(%r, %d, %r, %r, %d)\nprint(obs)\n"
-                        "sys.exit(1 if (not all(obs['present']) or obs['torn_reads']) else 0)\n") % (str(__import__("vlib.core").core.VERIF), trace, n, [None if u % 2 == 0 else "npy" for u in range(n)], oc, rounds)
-                run.violation(nm, "update_image:%s" % qn, "concurrent update_image: %s; real run under the solver's interleaving%s: contributions present=%s torn reads=%d" % (
-                    what, (" (clock far ahead for %s, so an existing lock file looks old)" % ", ".join(oc)) if oc else "", obs["present"], obs["torn_reads"]),
+                        "import sys\nsys.path.insert(0, %r)\nimport props.C10 as P\nobs = P.replay(%r, %d, %r, %r, %d, %r)\nprint(obs)\n"
+                        "sys.exit(1 if (not all(obs['present']) or obs['torn_reads']) else 0)\n") % (str(__import__("vlib.core").core.VERIF), trace, n, [None if (u % 2 == 0 or caller) else "npy" for u in range(n)], oc, rounds, caller)
+                run.violation(nm, "%s:%s" % ((caller + "-worker") if caller else "update_image", qn), "concurrent update_image%s: %s; real run under the solver's interleaving%s: contributions present=%s torn reads=%d" % (
+                    (" from %d real %s worker functions (each unlinks its tiles' lock files when it runs out of work)" % (n, caller)) if caller else "", what, (" (clock far ahead for %s, so an existing lock file looks old)" % ", ".join(oc)) if oc else "", obs["present"], obs["torn_reads"]),
                               text, "E3:bmc+detsched", queries=1, solver_s=dt)
             else:
                 run.error(nm, "solver interleaving did not reproduce on the real code: %s" % (obs,))
@@ -462,7 +651,7 @@ def check_updaters(run, n, rounds=1):
     # (b) the SAME model without the lock does lose an update (the assertion can fail)
     r, m, dt = U.check(alldone)
     if r == "sat":
-        obs = replay(U.trace(m), n, [None if u % 2 == 0 else "npy" for u in range(n)], old_clock_of(m), rounds)
+        obs = replay(U.trace(m), n, [None if (u % 2 == 0 or caller) else "npy" for u in range(n)], old_clock_of(m), rounds, caller)
         run.replays += 1
         if all(obs["present"]) and not obs["errors"]:
             run.ob("%s.twin" % name, "twin-sat", "E3:bmc+detsched", "a completing interleaving exists; the REAL update_image keeps all %d contributions under it" % (n * rounds), queries=1, solver_s=dt)
@@ -489,3 +678,19 @@ def check(run):
             check_updaters(run, n, rounds)
         except HarnessError as e:
             run.error("update[N=%d,R=%d]" % (n, rounds), e)
+    # the worker processes that call update_image: what they do to lock files outside it is extracted from the real worker
+    import toasty.multi_tan as tmt
+    import toasty.multi_wcs as tmw
+    run.uses(tmt._mp_tile_worker, tmw._mp_tile_worker)
+    for caller in ("multi_tan", "multi_wcs"):
+        nm = "%s-worker.leaves-lock-files-alone" % caller
+        try:
+            epi = caller_epilogue(caller)
+            if not epi:
+                run.ob(nm, "confirmed", "E3:extraction", "the real %s._mp_tile_worker, run on one item against a recording PyramidIO, touches no lock file outside update_image (clean-up is the parent's, after the workers have been joined): "
+                       "concurrent workers are exactly the modelled updaters" % caller)
+            else:
+                run.ob(nm, "confirmed", "E3:extraction", "the real %s._mp_tile_worker unlinks the lock file of each tile it updated when it runs out of work (%d step(s)): added to every updater's script, model checked with 3 workers" % (caller, len(epi)))
+                check_updaters(run, 3, 1, caller=caller, epilogue=epi)
+        except HarnessError as e:
+            run.error(nm, e)
